@@ -204,6 +204,11 @@ class Engine:
     int_enums = {"HAlign", "VAlign"}
 
     def truth_st(self, v, st):
+        if isinstance(v, Ref):
+            for c in self.mro(v.cls):
+                if (c, "__bool__") in self.methods:
+                    (r, _), = self.methods[(c, "__bool__")](self, st, v, (), {})
+                    return r
         if isinstance(v, Ref) and v.cls in ("list", "dict", "set", "frozenset"):
             h = st.H(v)
             if isinstance(h, list):
@@ -1534,7 +1539,7 @@ def _b_isinstance(eng, s, args, kw):
     ts = t if isinstance(t, tuple) else (t,)
     r = False
     for tt in ts:
-        name = tt.name if isinstance(tt, ClassV) else tt
+        name = tt.name if isinstance(tt, (ClassV, Fn)) else tt
         r = Or(r, eng.isinstance1(v, name, s))
     return [(r, s)]
 
